@@ -14,6 +14,7 @@ import (
 type c02Case struct {
 	Chain Chain    `json:"chain"`
 	Pre   []string `json:"pre"` // output paths that exist before the run, with garbage content
+	Empty bool     `json:"empty,omitempty"` // ... with no content at all (zero bytes): they exist all the same
 }
 
 func runC02(ctx *Ctx, c c02Case) {
@@ -27,6 +28,9 @@ func runC02(ctx *Ctx, c c02Case) {
 	pre := c.Chain.sources()
 	for i, p := range c.Pre {
 		pre[p] = fmt.Sprintf("GARBAGE-%d\n", i)
+		if c.Empty {
+			pre[p] = ""
+		}
 	}
 	for p, content := range pre {
 		full := filepath.Join(dir, p)
@@ -258,6 +262,11 @@ func checkC02(ctx *Ctx) {
 	}
 	// fixed: everything pre-exists; one of two outputs of a two-output task pre-exists
 	cases = append(cases, c02Case{Chain: Chain{Inputs: []string{"a.txt"}, Levels: []Level{{TwoOut: true}, {}}, Max: 2}, Pre: []string{"a.txt.L0.aux.txt"}})
+	// existing outputs of zero bytes
+	{
+		ch := Chain{Inputs: []string{"a.txt", "b.txt"}, Levels: []Level{{}, {}}, Max: 2}
+		cases = append(cases, c02Case{Chain: ch, Pre: []string{ch.pathAt("a.txt", 0)}, Empty: true}, c02Case{Chain: ch, Pre: []string{ch.pathAt("a.txt", 1), ch.pathAt("b.txt", 1)}, Empty: true})
+	}
 	// many skipped tasks of a process that asks for several cores per task: skipping must not cost slots, the
 	// downstream process still gets every existing file
 	{
